@@ -22,4 +22,7 @@ newfail=sorted(failed-set(base.get('always_fail',[]))-set(base.get('flaky',[])))
 print('failed now:',sorted(failed)[:10])
 sys.exit(1 if missing else 0)
 PY
-RC=$?; rm -f "$OUT"; exit $RC
+RC=$?; rm -f "$OUT"
+# failing golden tests leave actual_* files behind; keep only the one that was there from the start
+git -C /repo status --short test_outputs | awk '$1=="??"{print $2}' | grep -v actual_ipblockstest_4_connlist_output.txt | while read f; do rm -f "/repo/$f"; done
+exit $RC
